@@ -68,6 +68,7 @@ def run_query(script, q, line, col):
     """-> ('ok', canonical list) | ('ValueError', msg) | ('raised', class@site)"""
     try:
         r = getattr(script, q)(line, col)
+        res = canon(r)      # reading .type / .module_path infers, too
     except ValueError as e:
         cls, site = common.exc_site(e)
         if site.startswith('api/helpers.py') or site == '':
@@ -78,7 +79,6 @@ def run_query(script, q, line, col):
     except Exception as e:
         cls, site = common.exc_site(e)
         return ['raised', '%s@%s' % (cls, site)]
-    res = canon(r)
     if q == 'goto':
         res = sorted(res, key=lambda t: json.dumps(t))
     if q == 'complete':
@@ -279,6 +279,7 @@ EXTRA = [
     ("two-defs", "import os\nif os:\n    def f(): return 1\nelse:\n    def f(): return ''\nf\nf()"),
     ("multi-assign", "import os\nif os:\n    x = 1\nelif os.path:\n    x = ''\nelse:\n    x = [1]\nx"),
     ("param-union", "def f(a):\n    return a\nf(1)\nf('')\nf([])\ndef g(b):\n    return f(b)\ng(1.0)\nf"),
+    ("flow-sensitive", "class A: pass\nclass B: pass\ndef g(q):\n    if q: return A\n    return B\nx = g(1)\nx\ng"),
     ("refs", "def foo(a):\n    return a\nfoo(1)\nx = foo\nclass K:\n    foo = foo\nK.foo\nfoo"),
 ]
 
@@ -296,6 +297,25 @@ def heavy_program():
         src += t + "\n"
         uses.append((chains * n + c + 1, len(t)))
     return src.rstrip("\n"), uses
+
+
+def exec_heavy_program():
+    """6 groups of 40 distinct functions; `infer` at the loop variable of a group executes 40
+    functions. Without the per-query reset of the execution budget (200 per query) the 6th query on
+    one Script would run out of budget. Each group lives in its own function scope so that the
+    per-context cap (known finding C16-cap-not-reset-per-query) is not what decides."""
+    groups, per = 6, 40
+    lines = []
+    uses = []
+    for g in range(groups):
+        for i in range(per):
+            lines.append("def f%d_%d():\n    return %d" % (g, i, i))
+    for g in range(groups):
+        lines.append("def grp%d():\n    y = (%s)\n    for z in y:\n        z"
+                     % (g, ", ".join("f%d_%d()" % (g, i) for i in range(per))))
+        src_so_far = "\n".join(lines)
+        uses.append((src_so_far.count("\n") + 1, 9))
+    return "\n".join(lines), uses
 
 
 def programs(ctx, rng, n_graphs):
@@ -489,12 +509,15 @@ def stream_session(ctx, cap):
     progs = programs(ctx, rng, ctx.size(12, 200))
     hsrc, huses = heavy_program()
     progs.append(('heavy-chains', hsrc, huses))
+    esrc, euses = exec_heavy_program()
+    progs.append(('exec-heavy', esrc, euses))
     how = ('s = jedi.Script(source); answers = [s.<query>(line, column) for each query of `session` in order]; '
            'compare the answer at index `at` with jedi.Script(source).<query>(line, column) on a fresh Script')
+    probed = set()
     for label, src, positions in progs:
         nlines = src.count('\n') + 1
         pool = []
-        if label == 'heavy-chains':
+        if label in ('heavy-chains', 'exec-heavy'):
             pool = [('infer', l, c) for (l, c) in positions]
         else:
             for (line, col) in positions:
@@ -509,7 +532,7 @@ def stream_session(ctx, cap):
                 fresh[qq] = run_query(jedi.Script(src), *qq)
             return fresh[qq]
         sessions = []
-        if label == 'heavy-chains':
+        if label in ('heavy-chains', 'exec-heavy'):
             sessions = [list(pool), list(reversed(pool))]
         else:
             distinct = rng.sample(pool, min(len(pool), rng.randint(2, 4)))
@@ -528,8 +551,28 @@ def stream_session(ctx, cap):
                 case = {'label': label, 'source': src, 'session': [list(x) for x in sess], 'at': at}
                 bad = state_defaults(script)
                 if bad:
-                    ctx.fail('session', 'per-query state not restored after a query', case,
-                             expected='defaults', observed=bad, how=how)
+                    # the mechanism the theorem query_boundary_inv is about no longer holds on the real
+                    # object; whether the *property* fails is decided by the answers compared below
+                    ctx.tie_broken('state:query_boundary_inv (session)',
+                                   short({'label': label, 'session': [list(x) for x in sess], 'at': at, 'state': bad}, 800))
+                    # failing-input search: ask every position right now and compare with a fresh Script
+                    if (label, tuple(bad)) not in probed:
+                        probed.add((label, tuple(bad)))
+                        prefix = [list(x) for x in sess[:at + 1]]
+                        for (l2, c2) in positions[:12]:
+                            for q2 in ('infer', 'goto'):
+                                s2 = jedi.Script(src)
+                                for qq2 in sess[:at + 1]:
+                                    run_query(s2, *qq2)
+                                a = run_query(s2, q2, l2, c2)
+                                f = fresh_answer((q2, l2, c2))
+                                if a != f and a[0] == 'ok' and f[0] == 'ok':
+                                    ctx.fail('session', 'answer on a used Script differs from the answer of a fresh '
+                                             'Script: ' + classify(f, a),
+                                             {'label': label, 'source': src, 'session': prefix + [[q2, l2, c2]],
+                                              'at': at + 1}, expected=f,
+                                             observed={'difference': classify(f, a), 'answer': a, 'state': bad,
+                                                       'cap_state': 'n/a', 'history': 'state-leak'}, how=how)
                 if qq[1] > nlines or qq[1] < 1 or qq[2] > 400:
                     if ans[0] != 'ValueError':
                         # C01's statement; only counted here
@@ -601,11 +644,22 @@ def stream_fault(ctx):
             ctx.count('fault', (src, q, line, col, k), nontrivial=fired, bucket='%s/%s' % (q, 'fired' if fired else 'not-reached'),
                       sample={'label': label, 'query': q, 'line': line, 'column': col, 'k': k, 'of': total})
             if fired and bad:
-                ctx.fail('fault', 'a switch keeps its temporary value after a query that raised',
-                         {'label': label, 'source': src, 'query': q, 'line': line, 'column': col, 'raise_at_step': k},
-                         expected='defaults', observed=bad,
-                         how='raise at the k-th entry of the _infer_node/infer_expr_stmt body (closure cell hook), '
-                             'then inspect script._inference_state')
+                ctx.tie_broken('state:query_boundary_inv (fault)',
+                               short({'label': label, 'query': q, 'line': line, 'column': col, 'raise_at_step': k,
+                                      'state': bad}, 800))
+                # failing-input search: does a later query on this Script now answer differently?
+                for (l2, c2) in positions[:6]:
+                    for q2 in ('infer', 'goto'):
+                        a = run_query(script, q2, l2, c2)
+                        f = run_query(jedi.Script(src), q2, l2, c2)
+                        if a != f and a[0] == 'ok' and f[0] == 'ok':
+                            ctx.fail('fault', 'after a query that raised, the same Script answers differently: '
+                                     + classify(f, a),
+                                     {'label': label, 'source': src, 'failed_query': [q, line, col],
+                                      'raise_at_step': k, 'query': q2, 'line': l2, 'column': c2},
+                                     expected=f, observed={'answer': a, 'state': bad},
+                                     how='raise at the k-th entry of the _infer_node/infer_expr_stmt body '
+                                         '(closure cell hook) during failed_query, then ask query')
 
 
 # ----------------------------------------------------------------- driver
